@@ -57,14 +57,17 @@ def outcome_code(o):
     raise ValueError(o)
 
 
-def mk_contract(outcomes, default):
+def mk_contract(outcomes, default, extra_pass=False):
     X, Y = e2e.arg(0), e2e.arg(1)
     body = []
     for i, o in enumerate(outcomes):
         # x * y == c_i: the query of this path mentions the multiplication abstraction, so a model that interprets it is refined
         body += e2e.if_then(Y + X + ["MUL", ("pushn", 4, CONSTS[i]), "EQ"], outcome_code(o), f"p{i}")
     body += outcome_code(default)
-    return e2e.Contract("V", {"setUp()": ["STOP"], "check_v(uint256,uint256)": body})
+    funcs = {"setUp()": ["STOP"], "check_v(uint256,uint256)": body}
+    if extra_pass:
+        funcs["check_a()"] = ["STOP"]  # runs before check_v and passes
+    return e2e.Contract("V", funcs)
 
 
 def classify(reply):
@@ -73,7 +76,7 @@ def classify(reply):
     if r.startswith("sat-abstract"):
         second = r.split(":", 1)[1]
         return classify(second) if second != "sat" else "sat"
-    if r in ("sat", "exit1-sat"):
+    if r in ("sat", "exit1-sat", "slowsat"):
         return "sat"
     if r in ("unsat", "unsat-nocore"):
         return "unsat"
@@ -123,7 +126,10 @@ class ScriptedSolver:
 
     pool = None
 
-    def answer(self, path):
+    complete_sat = 0
+    killed = 0
+
+    def answer(self, path, fut=None):
         import subprocess
         import time
 
@@ -142,6 +148,22 @@ class ScriptedSolver:
             time.sleep(float(secs))
         if mode.startswith("sleep"):
             raise subprocess.TimeoutExpired(["scripted-solver", path], 1)
+        if mode == "slowsat":
+            # a solver that is still printing its model when --early-exit shuts the executor down: cancel() kills it, and what it had
+            # written so far (`sat` and half a model) comes back with return code -15.  Left alone for a second it answers `sat` in full
+            t0 = time.time()
+            while time.time() - t0 < 1.0 and not (fut is not None and fut.cancelled_by_shutdown):
+                time.sleep(0.005)
+            if fut is not None and fut.cancelled_by_shutdown:
+                self.killed += 1
+                full, _ = solverstub.reply("sat", path, text)
+                return full[: max(4, len(full) // 2)], "", -15
+            mode = "sat"
+        if mode == "sat":
+            self.complete_sat += 1
+        if mode == "spawnfail":
+            # the solver binary cannot be started: the job's own exception reaches whoever asked for the result
+            raise FileNotFoundError(2, "No such file or directory: 'scripted-solver'")
         if mode == "unsat-nocore":
             # a solver that proves unsat without naming any tracked assertion prints an empty core
             return "unsat\n()\n", "", 0
@@ -168,11 +190,13 @@ def install_solver(solver, sync=False):
         def start(self):
             return self
 
+        cancelled_by_shutdown = False
+
         def result(self, timeout=None):
-            return solver.answer(self.cmd[-1])
+            return solver.answer(self.cmd[-1], self)
 
         def cancel(self):
-            pass
+            self.cancelled_by_shutdown = True
 
         def done(self):
             return True
@@ -216,7 +240,7 @@ def companion(kind):
 COMPANIONS = (None, "first-good", "last-good", "first-badsetup", "last-badsetup")
 
 
-def run_case(acc, outcomes, default, replies, early, cache, threads, via_main=False, sync=False, latecb=False, comp=None):
+def run_case(acc, outcomes, default, replies, early, cache, threads, via_main=False, sync=False, latecb=False, comp=None, two=False):
     import halmos.__main__ as M
 
     solver = ScriptedSolver(replies)
@@ -260,8 +284,11 @@ def run_case(acc, outcomes, default, replies, early, cache, threads, via_main=Fa
     case = {"outcomes": outcomes, "default": default, "replies": replies, "early": early, "cache": cache, "threads": threads, "main": via_main, "sync": sync, "latecb": latecb, "comp": comp}
     if comp:
         name += f" companion={comp}"
+    if two:
+        name += " after-a-passing-test"
+        case["two"] = True
     want = reference_verdict(outcomes, default, replies)
-    c = mk_contract(outcomes, default)
+    c = mk_contract(outcomes, default, extra_pass=two)
     try:
         if via_main:
             argv = ["--solver-command", cmd, "--solver-timeout-assertion", "1s", "--solver-threads", str(threads)]
@@ -301,6 +328,11 @@ def run_case(acc, outcomes, default, replies, early, cache, threads, via_main=Fa
         return
     got = rr.results[0].exitcode
     acc.outcome((want, got))
+    valid = sum(1 for m in (rr.results[0].models or []) if m.is_valid)
+    if "slowsat" in replies and valid > solver.complete_sat:
+        acc.violation(f"valid-from-killed:{name}", f"{name}: {valid} counterexample(s) labelled valid, but only {solver.complete_sat} solver run(s) answered `sat` in full "
+                      f"({solver.killed} were killed by the early exit while printing their model: their truncated output is not an answer)", case)
+        return
     if got == want:
         acc.state(name)
         return
@@ -366,6 +398,16 @@ def cases(tier):
         for default in ("success", "revert"):
             for comp in COMPANIONS:
                 out.append({"outcomes": outcomes, "default": default, "replies": replies, "early": False, "cache": False, "threads": 1, "main": True, "comp": comp})
+    # --early-exit kills the solvers still running when the first valid counterexample arrives: what a killed solver had printed so far
+    # is not an answer (no counterexample may be built from it)
+    for outcomes, replies in ((["panic", "panic"], ["sat", "slowsat"]), (["panic", "panic"], ["slowsat", "sat"]), (["failflag", "panic", "panic"], ["slowsat", "sat", "slowsat"])):
+        for early in (True, False):
+            out.append({"outcomes": outcomes, "default": "success", "replies": replies, "early": early, "cache": False, "threads": len(outcomes), "main": False})
+    # a test that ends in an exception (the solver of its stuck-path query cannot be started) / in any other non-PASS way, run right after a
+    # passing test of the same contract: the process exit code still says "not all passed"
+    for outcomes, replies in ((["stuck"], ["spawnfail"]), (["stuck", "panic"], ["spawnfail", "unsat"]), (["panic"], ["sat"]), (["panic"], ["unknown"]), (["stuck"], ["sat"]), (["success"], ["unsat"])):
+        for default in ("success", "revert"):
+            out.append({"outcomes": outcomes, "default": default, "replies": replies, "early": False, "cache": False, "threads": 1, "main": True, "two": True})
     return out
 
 
@@ -382,7 +424,7 @@ def run_shard(shard):
     hdriver.install_uid()
     acc = Acc(max_violations=30)
     for c in shard["cases"]:
-        run_case(acc, c["outcomes"], c["default"], c["replies"], c["early"], c["cache"], c["threads"], c["main"], c.get("sync", False), c.get("latecb", False), c.get("comp"))
+        run_case(acc, c["outcomes"], c["default"], c["replies"], c["early"], c["cache"], c["threads"], c["main"], c.get("sync", False), c.get("latecb", False), c.get("comp"), c.get("two", False))
     if shard["cases"]:
         c = shard["cases"][0]
         acc.sample({"paths": c["outcomes"] + [c["default"]], "solver_replies": c["replies"], "early_exit": c["early"], "cache_solver": c["cache"], "reference_verdict": reference_verdict(c["outcomes"], c["default"], c["replies"])})
@@ -407,6 +449,6 @@ def replay(case):
     hdriver.install_logging()
     hdriver.install_uid()
     acc = Acc()
-    run_case(acc, case["outcomes"], case["default"], case["replies"], case["early"], case["cache"], case["threads"], case.get("main", False), case.get("sync", False), case.get("latecb", False), case.get("comp"))
+    run_case(acc, case["outcomes"], case["default"], case["replies"], case["early"], case["cache"], case["threads"], case.get("main", False), case.get("sync", False), case.get("latecb", False), case.get("comp"), case.get("two", False))
     v = acc.result()["violations"]
     return {"violated": bool(v), "obs": [x["what"] for x in v][:3], "key": v[0]["key"] if v else ""}
